@@ -143,7 +143,7 @@ func (fr *frame) symSprintf(format string, args []value) (value, []int) {
 			if it.t != nil {
 				// un-modelled operand (struct, pointer...): render a stable token
 				switch it.v.(type) {
-				case *value, structure, *omap, *closure, *ssa.Function, array:
+				case *value, structure, *omap, *closure, *ssa.Function, array, []value:
 					if verbOf[k] == 'T' {
 						hostArgs[k] = typeName(it.t)
 						override[k] = 's'
